@@ -171,6 +171,17 @@ Proof.
   - rewrite E. pose proof (Z.div_mod ns 1000000 ltac:(lia)). pose proof (Z.mod_pos_bound ns 1000000 ltac:(lia)). lia.
 Qed.
 
+Lemma outermost_timestamp_wins_lemma inner layers :
+  Forall (fun t => 0 <= snd t < 1000000000 /\ -9223372036854775808 <= fst t * 1000 /\ fst t * 1000 + 999 < 9223372036854775808) layers ->
+  nested_timestamp inner layers = nested_timestamp_spec inner layers.
+Proof.
+  unfold nested_timestamp, nested_timestamp_spec. revert inner.
+  induction layers as [|t r IH] using rev_ind; intros inner H; [reflexivity|].
+  apply Forall_app in H. destruct H as [_ H]. inversion H as [|? ? (H1 & H2 & H3) _]; subst.
+  rewrite fold_left_app, rev_app_distr. cbn.
+  rewrite (proj1 (timestamp_floor_ms_lemma (fst t) (snd t) H1 H2 H3)). reflexivity.
+Qed.
+
 (* =========================================================== NewDesc *)
 Lemma ex_consts (consts : list lpair) :
   existsb (fun p => negb (check_label_name (fst p))) consts = negb (forallb name_ok_spec (map fst consts)).
